@@ -273,8 +273,11 @@ Proof.
   destruct (otype_eqb T' T); cbn [negb]; [|discriminate]. intros H; inversion H. eauto.
 Qed.
 
+Definition glyf_only (views : list gp) : Prop :=
+  lists_tag views T_gvar = false /\ lists_tag views T_CFF = false /\ lists_tag views T_CFF2 = false.
+
 (* ---------- the shape of a successful glyph keyed application that does not touch gvar ---------- *)
-Lemma gk_core_shape f infos views F : gm_ok f -> lists_tag views T_gvar = false ->
+Lemma gk_core_shape f infos views F : gm_ok f -> glyf_only views ->
   gk_core f infos views = inr F ->
   exists mx ng ift' iftx',
     lookup f T_maxp = Some mx /\ uN_at 2 mx 4 = Some ng /\ (ng =? 0) = false /\
@@ -287,14 +290,12 @@ Lemma gk_core_shape f infos views F : gm_ok f -> lists_tag views T_gvar = false 
                          lookup F T_glyf = Some ds /\ lookup F T_loca = Some enc
      else lookup F T_glyf = lookup f T_glyf /\ lookup F T_loca = lookup f T_loca).
 Proof.
-  intros Hf Hgv H. pose proof (gm_ok_nodup _ Hf) as ND. unfold gk_core in H.
+  intros Hf [Hgv [C1 C2]] H. pose proof (gm_ok_nodup _ Hf) as ND. unfold gk_core in H.
   destruct (lookup f T_maxp) as [mx|] eqn:Lm; [|discriminate].
   destruct (uN_at 2 mx 4) as [ng|] eqn:Un; [|discriminate]. cbn [bind] in H.
   destruct (ng =? 0) eqn:Ng; [discriminate|].
   destruct (forallb _ views) eqn:Fa; cbn [negb] in H; [|discriminate].
-  unfold handlers in H. cbn [run_handlers] in H. rewrite Hgv in H.
-  destruct (lists_tag views T_CFF) eqn:C1; [discriminate|].
-  destruct (lists_tag views T_CFF2) eqn:C2; [discriminate|].
+  unfold handlers in H. cbn [run_handlers] in H. rewrite Hgv, C1, C2 in H.
   exists mx, ng.
   destruct (lists_tag views T_glyf) eqn:G.
   - destruct (patch_glyf f views (ng - 1)) as [?|adds] eqn:PG; cbn [bind] in H; [discriminate|].
@@ -412,17 +413,16 @@ Proof.
 Qed.
 
 (* ---------- remaining tables when gvar is not touched ---------- *)
-Lemma gk_core_rest f infos views F : gm_ok f -> lists_tag views T_gvar = false ->
+Lemma gk_core_rest f infos views F : gm_ok f -> glyf_only views ->
   gk_core f infos views = inr F ->
   forall x, x <> T_glyf -> x <> T_loca -> x <> T_IFT -> x <> T_IFTX -> lookup F x = lookup f x.
 Proof.
-  intros Hf Hgv H x N1 N2 N3 N4. pose proof (gm_ok_nodup _ Hf) as ND. unfold gk_core in H.
+  intros Hf [Hgv [C1 C2]] H x N1 N2 N3 N4. pose proof (gm_ok_nodup _ Hf) as ND. unfold gk_core in H.
   destruct (lookup f T_maxp) as [mx|]; [|discriminate].
   destruct (uN_at 2 mx 4) as [ng|]; [|discriminate]. cbn [bind] in H.
   destruct (ng =? 0); [discriminate|].
   destruct (forallb _ views); cbn [negb] in H; [|discriminate].
-  unfold handlers in H. cbn [run_handlers] in H. rewrite Hgv in H.
-  destruct (lists_tag views T_CFF); [discriminate|]. destruct (lists_tag views T_CFF2); [discriminate|].
+  unfold handlers in H. cbn [run_handlers] in H. rewrite Hgv, C1, C2 in H.
   assert (K : forall processed fb,
      (forall y, In y processed -> y = T_glyf \/ y = T_loca \/ y = T_IFT \/ y = T_IFTX) -> lookup fb x = None ->
      (let? (ift', iftx') := mark_all (lookup f T_IFT, lookup f T_IFTX) infos in
@@ -453,7 +453,7 @@ Proof. unfold lists_tag. apply existsb_app. Qed.
 
 Lemma poa_dedup_eq va vb t offs data T avail e_off maxgid : dedup va t = dedup vb t ->
   patch_offset_array va t offs data T avail e_off maxgid = patch_offset_array vb t offs data T avail e_off maxgid.
-Proof. intros E. unfold patch_offset_array. now rewrite E. Qed.
+Proof. intros E. unfold patch_offset_array, patch_offset_array_gen. now rewrite E. Qed.
 
 Lemma patch_glyf_dedup_eq f va vb maxgid : dedup va T_glyf = dedup vb T_glyf ->
   patch_glyf f va maxgid = patch_glyf f vb maxgid.
@@ -471,13 +471,16 @@ Proof. intros E1 E2 E3. unfold patch_glyf, read_loca. now rewrite E1, E2, E3. Qe
 Theorem gk_core_grouping f i1 i2 v1 v2 F12 F1 F2 :
   gm_ok f -> gids_nonneg (v1 ++ v2) -> views_agree T_glyf (v1 ++ v2) ->
   (forall mx ng, lookup f T_maxp = Some mx -> uN_at 2 mx 4 = Some ng -> 0 <= ng) ->
-  lists_tag (v1 ++ v2) T_gvar = false ->
+  glyf_only (v1 ++ v2) ->
   gk_core f (i1 ++ i2) (v1 ++ v2) = inr F12 ->
   gk_core f i1 v1 = inr F1 -> gk_core F1 i2 v2 = inr F2 -> F2 = F12.
 Proof.
   intros Hf Hnn Hag Hng Hgv H12 H1 H2.
-  rewrite lists_tag_app in Hgv. apply orb_false_elim in Hgv. destruct Hgv as [Hg1 Hg2].
-  assert (Hg12 : lists_tag (v1 ++ v2) T_gvar = false) by (rewrite lists_tag_app, Hg1, Hg2; reflexivity).
+  assert (Hg12 : glyf_only (v1 ++ v2)) by exact Hgv.
+  assert (Hg1 : glyf_only v1 /\ glyf_only v2).
+  { destruct Hgv as [A [B C]]. rewrite lists_tag_app in A, B, C.
+    apply orb_false_elim in A, B, C. unfold glyf_only. tauto. }
+  destruct Hg1 as [Hg1 Hg2].
   pose proof (gk_core_ok _ _ _ _ H1) as Ok1. pose proof (gk_core_ok _ _ _ _ H2) as Ok2.
   pose proof (gk_core_ok _ _ _ _ H12) as Ok12.
   assert (Hnn1 : gids_nonneg v1) by (unfold gids_nonneg in *; apply Forall_app in Hnn; tauto).
@@ -535,7 +538,7 @@ Proof.
     1, 4: (assert (E : patch_glyf f (v1 ++ v2) (ng - 1) = patch_glyf f v1 (ng - 1));
            [apply patch_glyf_dedup_eq; unfold patch_glyf in P12;
             destruct (lookup f T_glyf); [|discriminate]; destruct (read_loca f) as [[T offs]|]; [|discriminate];
-            unfold patch_offset_array in P12; destruct (dedup (v1 ++ v2) T_glyf) as [[? ?]|m] eqn:D; [discriminate|];
+            unfold patch_offset_array, patch_offset_array_gen in P12; destruct (dedup (v1 ++ v2) T_glyf) as [[? ?]|m] eqn:D; [discriminate|];
             now rewrite (dedup_unlisted_r _ _ _ L2 _ D)
            | rewrite E, P1 in P12; inversion P12; congruence]).
     (* only the second group patches glyf *)
